@@ -137,6 +137,10 @@ class DatagramError(ProtocolError):
     error_code = ErrorCode.H3_DATAGRAM_ERROR
 
 
+class FrameError(ProtocolError):
+    error_code = ErrorCode.H3_FRAME_ERROR
+
+
 class FrameUnexpected(ProtocolError):
     error_code = ErrorCode.H3_FRAME_UNEXPECTED
 
@@ -959,6 +963,8 @@ class H3Connection:
             and stream.frame_size is not None
             and len(stream.buffer) < stream.frame_size
         ):
+            if stream_ended:
+                raise FrameError("Stream ended with a truncated frame")
             stream.content_length += len(stream.buffer)
             http_events.append(
                 DataReceived(
@@ -974,6 +980,8 @@ class H3Connection:
 
         # handle lone FIN
         if stream_ended and not stream.buffer:
+            if stream.frame_size is not None:
+                raise FrameError("Stream ended with a truncated frame")
             self._check_content_length(stream)
 
             http_events.append(
@@ -1057,7 +1065,9 @@ class H3Connection:
                         frame_type=frame_type,
                         frame_data=frame_data,
                         stream=stream,
-                        stream_ended=stream.receiving_ended and buf.eof(),
+                        stream_ended=stream.receiving_ended
+                        and buf.eof()
+                        and stream.frame_size is None,
                     )
                 )
             except pylsqpack.StreamBlocked:
@@ -1067,6 +1077,14 @@ class H3Connection:
 
         # remove processed data from buffer
         stream.buffer = stream.buffer[consumed:]
+
+        # a stream must not end in the middle of a frame (RFC 9114, 7.1)
+        if (
+            stream.receiving_ended
+            and not stream.blocked
+            and (stream.buffer or stream.frame_size is not None)
+        ):
+            raise FrameError("Stream ended with a truncated frame")
 
         return http_events
 
